@@ -2,6 +2,7 @@
 import asyncio
 import functools
 import json
+import logging
 import multiprocessing as mp
 import os
 import sys
@@ -12,8 +13,34 @@ from typing import Any
 from harness import runproc_funcs as F
 
 
+class SlowHandler(logging.Handler):
+    """a blocking log handler in the parent (SMTP/HTTP/syslog-over-network style): `delay` seconds per record"""
+
+    def __init__(self, delay: float) -> None:
+        super().__init__()
+        self.delay = delay
+        self.handled: list = []
+
+    def emit(self, record: logging.LogRecord) -> None:
+        if self.delay:
+            time.sleep(self.delay)
+        self.handled.append(record.getMessage())
+
+
+def _task_name(t: 'asyncio.Task') -> str:
+    return getattr(t.get_coro(), '__qualname__', None) or repr(t)
+
+
 async def amain(spec: dict) -> dict:
     from nextline.utils import run_in_process
+    slow = spec.get('slow_handler')
+    handler = None
+    if slow:
+        handler = SlowHandler(slow['delay'])
+        lg = logging.getLogger(F.SLOW_LOGGER)
+        lg.addHandler(handler)
+        lg.propagate = False
+    tasks_before = set(asyncio.all_tasks())
     func = functools.partial(getattr(F, spec['func']), *spec.get('args', []))
     kw = {}
     if spec.get('initializer'):
@@ -39,6 +66,18 @@ async def amain(spec: dict) -> dict:
     async def one_awaiter() -> Any:
         return await running
 
+    async def await_and_look() -> Any:
+        ex = await running
+        # the instant at which awaiting the handle has yielded (no suspension point in between): which tasks other than the
+        # harness's own are still running, and how many of the child's log records have been handled by now
+        mine = {asyncio.current_task(), st, sp_task, *awaiters}
+        left = [t for t in asyncio.all_tasks() - tasks_before if t not in mine and not t.done()]
+        res['tasks_left_at_yield'] = sorted(_task_name(t) for t in left)
+        if handler is not None:
+            res['records_handled_at_yield'] = len(handler.handled)
+        res['yield_after_s'] = round(time.time() - t0, 2)
+        return ex
+
     async def spawn_awaiters() -> None:
         # a fresh awaiter of the same handle at every iteration of the event loop, before, while and after the process exits
         while not stop_spawning[0] and len(awaiters) < 20000:
@@ -46,7 +85,7 @@ async def amain(spec: dict) -> dict:
             await asyncio.sleep(0)
     sp_task = asyncio.ensure_future(spawn_awaiters()) if spec.get('many_awaiters') else None
     try:
-        ex = await asyncio.wait_for(running, timeout=spec.get('timeout', 20))
+        ex = await asyncio.wait_for(await_and_look(), timeout=spec.get('timeout', 20))
         res['awaited'] = True
         res['returned'] = repr(ex.returned)
         res['returned_is_none'] = ex.returned is None
@@ -77,6 +116,14 @@ async def amain(spec: dict) -> dict:
     await asyncio.sleep(0.05)
     res['pending_tasks'] = len([t for t in asyncio.all_tasks() if t is not asyncio.current_task() and not t.done()])
     res['extra_threads'] = max(0, threading.active_count() - threads_before - 1 - len([t for t in threading.enumerate() if t.name.startswith('asyncio_')]))
+    if handler is not None:
+        # let a listener that was left behind finish (bounded), to report when the records were eventually handled
+        n_exp = spec.get('n_records', 0)
+        t_end = time.time() + 15
+        while len(handler.handled) < n_exp and time.time() < t_end and res.get('tasks_left_at_yield'):
+            await asyncio.sleep(0.1)
+        res['records_handled_finally'] = len(handler.handled)
+        res['records_finally_after_s'] = round(time.time() - t0, 2)
     res['wall_s'] = round(time.time() - t0, 2)
     return res
 
